@@ -315,12 +315,90 @@ const SUBSET_FONTS: &[(&str, u16)] = &[
 ];
 const VAR_FONTS: &[(&str, usize)] = &[("opentype/NotoSans-VF.abc.ttf", 3), ("variable/UnderlineTest-VF.ttf", 2)];
 
+/// composite glyphs of a TrueType fixture whose components are all simple: (gid, components)
+fn composites(path: &str) -> Vec<(u16, Vec<u16>)> {
+    let data = fixture(path);
+    let mut out = vec![];
+    let fd = match ReadScope::new(&data).read::<FontData<'_>>() {
+        Ok(f) => f,
+        Err(_) => return out,
+    };
+    let p = match fd.table_provider(0) {
+        Ok(p) => p,
+        Err(_) => return out,
+    };
+    let get = |t: u32| p.table_data(t).ok().flatten().map(|c| c.into_owned());
+    let head = get(tag::HEAD).and_then(|d| ReadScope::new(&d).read::<HeadTable>().ok());
+    let maxp = get(tag::MAXP).and_then(|d| ReadScope::new(&d).read::<MaxpTable>().ok());
+    let (head, maxp, loca_d, glyf_d) = match (head, maxp, get(tag::LOCA), get(tag::GLYF)) {
+        (Some(h), Some(m), Some(l), Some(g)) => (h, m, l, g),
+        _ => return out,
+    };
+    let loca = match ReadScope::new(&loca_d).read_dep::<LocaTable<'_>>((usize::from(maxp.num_glyphs), head.index_to_loc_format)) {
+        Ok(l) => l,
+        Err(_) => return out,
+    };
+    let glyf = match ReadScope::new(&glyf_d).read_dep::<GlyfTable<'_>>(&loca) {
+        Ok(g) => g,
+        Err(_) => return out,
+    };
+    for (gid, rec) in glyf.records().iter().enumerate() {
+        if !rec.is_composite() {
+            continue;
+        }
+        let mut rec = rec.clone();
+        if rec.parse().is_err() {
+            continue;
+        }
+        if let GlyfRecord::Parsed(Glyph::Composite(c)) = &rec {
+            if c.glyphs.iter().all(|g| glyf.records().get(usize::from(g.glyph_index)).map(|r| !r.is_composite()).unwrap_or(false)) {
+                let mut comps: Vec<u16> = vec![];
+                for g in &c.glyphs {
+                    if !comps.contains(&g.glyph_index) {
+                        comps.push(g.glyph_index);
+                    }
+                }
+                out.push((gid as u16, comps));
+            }
+        }
+    }
+    out
+}
+
+fn composites_cached(path: &'static str) -> &'static Vec<(u16, Vec<u16>)> {
+    use std::sync::{Mutex, OnceLock};
+    static CACHE: OnceLock<Mutex<HashMap<&'static str, &'static Vec<(u16, Vec<u16>)>>>> = OnceLock::new();
+    let mut m = CACHE.get_or_init(|| Mutex::new(HashMap::new())).lock().unwrap();
+    *m.entry(path).or_insert_with(|| Box::leak(Box::new(composites(path))))
+}
+
 fn gen(rng: &mut Rng) -> String {
     match rng.below(12) {
         0 | 2 | 3 => {
             let (f, n) = *rng.pick(SUBSET_FONTS);
             let k = (1 + rng.below(6) as usize).min(n as usize);
             let mut g: Vec<u16> = vec![0];
+            let comps = composites_cached(f);
+            if !comps.is_empty() && rng.chance(1, 2) {
+                // a list that ends in a composite glyph whose components precede it, so that the
+                // re-encoded composite is the last glyph of the output (odd instruction lengths occur)
+                let (c, parts) = rng.pick(comps).clone();
+                for _ in 0..rng.below(3) {
+                    let x = rng.below(n as u64) as u16;
+                    if !g.contains(&x) && x != c {
+                        g.push(x);
+                    }
+                }
+                for x in parts {
+                    if !g.contains(&x) {
+                        g.push(x);
+                    }
+                }
+                if !g.contains(&c) {
+                    g.push(c);
+                }
+                return format!("S|{}|{}", f, g.iter().map(|x| x.to_string()).collect::<Vec<_>>().join(","));
+            }
             while g.len() < k {
                 let x = rng.below(n as u64) as u16;
                 if !g.contains(&x) {
